@@ -318,6 +318,15 @@ func c02Sessions(tier string) []c02Session {
 		out = append(out, c02Session{Name: fmt.Sprintf("statement declaring %d parameters", n), Params: true, Opts: []wire.OptionFn{wire.MessageBufferSize(1 << 20)},
 			Segs: [][]byte{start, pgproto.Parse("s", q), pgproto.Describe('S', "s"), pgproto.Sync(), pgproto.Query(progRows)}})
 	}
+	// (k) more than one encryption request before the start-up packet: after the ONE answer byte only messages follow
+	for i, segs := range [][][]byte{
+		{pgproto.SSLRequest(), pgproto.SSLRequest(), start, pgproto.Query(progRows)},
+		{pgproto.SSLRequest(), pgproto.Untyped([]byte{0x04, 0xd2, 0x16, 0x30}), start, pgproto.Query(progRows)},
+		{pgproto.SSLRequest(), pgproto.SSLRequest(), pgproto.SSLRequest(), start},
+		{pgproto.Cat(pgproto.SSLRequest(), pgproto.SSLRequest(), start, pgproto.Query(progRows))},
+	} {
+		out = append(out, c02Session{Name: fmt.Sprintf("repeated encryption requests (variant %d)", i), SSL: true, Segs: segs})
+	}
 	// (g) single bytes chosen by the client that select a sub-command or a message type: every value, known or not
 	// (whatever the server says about an unknown one must still be a well-formed message)
 	for b := 0; b < 256; b++ {
